@@ -46,6 +46,10 @@ mod round_robin {
         }
     }
 
+    #[cfg(kani)]
+    #[path = "/verif/kani/round_robin.rs"]
+    mod verif_kani;
+
     mod cycle {
         use std::sync::{
             atomic::{AtomicUsize, Ordering},
@@ -90,6 +94,10 @@ mod round_robin {
             assert_eq!(cycle.next(), &3);
             assert_eq!(cycle.next(), &1);
         }
+
+        #[cfg(kani)]
+        #[path = "/verif/kani/cycle.rs"]
+        mod verif_kani;
     }
 }
 
@@ -177,6 +185,10 @@ mod consistent_hash {
             hasher.finish()
         }
     }
+
+    #[cfg(kani)]
+    #[path = "/verif/kani/consistent_hash.rs"]
+    mod verif_kani;
 
     #[cfg(test)]
     mod tests {
